@@ -29,6 +29,7 @@ import (
 
 var errC34Stream = errors.New("c34: scripted stream error")
 var errC34Write = errors.New("c34: scripted write error")
+var errC34Close = errors.New("c34: scripted Close error")
 
 // c34Stream is a scripted body stream. Each Read call delivers the next scripted part (split if p is shorter),
 // an empty part is a (0, nil) read; after the script: io.EOF. failAt (1-based Read number) makes that Read fail.
@@ -42,6 +43,8 @@ type c34Stream struct {
 	actual    [][]byte // what Read really returned (the model's `reads`)
 	closes    atomic.Int32
 	panics    int
+	closeErr  bool        // Close (and CloseWithError) return an error
+	cwe       atomic.Int32
 	onRead    func(n int) // hook (C22 uses it)
 	mu        sync.Mutex
 }
@@ -77,7 +80,24 @@ func (s *c34Stream) Read(p []byte) (int, error) {
 	return n, nil
 }
 
-func (s *c34Stream) Close() error { s.closes.Add(1); return nil }
+func (s *c34Stream) Close() error {
+	s.closes.Add(1)
+	if s.closeErr {
+		return errC34Close
+	}
+	return nil
+}
+
+// c34StreamCWE additionally implements fasthttp.ReadCloserWithError (responses call it after Close).
+type c34StreamCWE struct{ *c34Stream }
+
+func (s c34StreamCWE) CloseWithError(error) error {
+	s.cwe.Add(1)
+	if s.closeErr {
+		return errC34Close
+	}
+	return nil
+}
 
 func (s *c34Stream) produced() []byte {
 	s.mu.Lock()
@@ -216,12 +236,21 @@ func c34Chunk(kind string, a [][]byte) *Case {
 	case 'e':
 		is = &c34Stream{parts: parts, eofJoined: true}
 		stream = is
+	case 'c': // Close returns an error
+		is = &c34Stream{parts: parts, closeErr: true}
+		stream = is
+	case 'w', 'W': // also a ReadCloserWithError; 'w': both calls return an error
+		is = &c34Stream{parts: parts, closeErr: mode == 'w'}
+		stream = c34StreamCWE{is}
 	default:
 		is = &c34Stream{parts: parts}
 		stream = is
 	}
 	w := &c34Writer{failFrom: -1}
 	werr, release := c34Write(obj, stream, -1, w)
+	if is != nil && is.closeErr && errors.Is(werr, errC34Close) {
+		werr = nil // the failing Close is reported to the caller; everything else must be as for any other stream
+	}
 	wire := append([]byte(nil), w.buf.Bytes()...)
 	closesAfterWrite := int32(-1)
 	if is != nil {
@@ -411,6 +440,9 @@ func (o *c34Obj) attached() string {
 	if bs == nil {
 		return "n"
 	}
+	if v, ok := bs.(c34StreamCWE); ok {
+		bs = v.c34Stream
+	}
 	for i, s := range o.streams {
 		if bs == io.Reader(s) {
 			return fmt.Sprintf("p%d", i)
@@ -462,8 +494,19 @@ func c34Close(kind string, a [][]byte) *Case {
 				failAt, _ = strconv.Atoi(op[2:])
 			}
 			s := &c34Stream{parts: [][]byte{bytes.Repeat([]byte("a"), 40), bytes.Repeat([]byte("b"), 40), bytes.Repeat([]byte("c"), 40)}}
-			if mode == 'e' || mode == 'p' {
+			switch mode {
+			case 'e', 'p':
 				s.failMode, s.failAt = mode, failAt
+			case 'c', 'w':
+				s.closeErr = true
+			case 'x':
+				s.failMode, s.failAt, s.closeErr = 'e', failAt, true
+			case 'q':
+				s.failMode, s.failAt, s.closeErr = 'p', failAt, true
+			}
+			var rdr io.Reader = s
+			if mode == 'w' || mode == 'v' {
+				rdr = c34StreamCWE{s}
 			}
 			decl := -1
 			if op[0] == 'F' {
@@ -471,9 +514,9 @@ func c34Close(kind string, a [][]byte) *Case {
 			}
 			o.streams = append(o.streams, s)
 			if o.kind == 'R' {
-				o.resp.SetBodyStream(s, decl)
+				o.resp.SetBodyStream(rdr, decl)
 			} else {
-				o.req.SetBodyStream(s, decl)
+				o.req.SetBodyStream(rdr, decl)
 			}
 			ev = fmt.Sprintf("S%d", len(o.streams)-1)
 		case 'W':
@@ -586,6 +629,9 @@ func c34Close(kind string, a [][]byte) *Case {
 		default:
 			continue
 		}
+		if ev == "D" && cur != nil && cur.closeErr {
+			ev = "D!" // this closeBodyStream's Close call returned an error
+		}
 		evs = append(evs, B(ev))
 		snaps = append(snaps, o.attached())
 		c := make([]int32, len(o.streams))
@@ -595,12 +641,18 @@ func c34Close(kind string, a [][]byte) *Case {
 		counts = append(counts, c)
 	}
 	// the object is released: every stream ever attached must end up closed exactly once
+	lastEv := "D"
+	if att := o.attached(); att != "n" {
+		if id, err := strconv.Atoi(att[1:]); err == nil && id >= 0 && id < len(o.streams) && o.streams[id].closeErr {
+			lastEv = "D!"
+		}
+	}
 	if o.kind == 'R' {
 		o.resp.Reset()
 	} else {
 		o.req.Reset()
 	}
-	evs = append(evs, B("D"))
+	evs = append(evs, B(lastEv))
 	snaps = append(snaps, o.attached())
 	c34Settle(o.streams, 1)
 	time.Sleep(300 * time.Microsecond)
@@ -794,8 +846,10 @@ func c34Conn(kind string, a [][]byte) *Case {
 		mustClose bool
 		decl      int
 		reqBody   []byte
+		closeErr  bool // the handler's stream returns an error from Close: the response is complete, the connection may end
 	}
 	var exps []exp
+	var hookStreams []*c34Stream
 	i := 2
 	n := 0
 	for i < len(a) {
@@ -816,6 +870,23 @@ func c34Conn(kind string, a [][]byte) *Case {
 			k, _ := strconv.Atoi(spec[3:])
 			e.body = bytes.Repeat([]byte("w"), k)
 			fmt.Fprintf(&stream, "GET /r%d?%s HTTP/1.1\r\nHost: h\r\n\r\n", n, spec)
+		case strings.HasPrefix(spec, "cst="): // cst=N:D:E  instrumented stream of N bytes, declared D (-1 chunked), E=1: Close fails
+			f := strings.Split(spec[4:], ":")
+			k, d, ce := 0, -1, false
+			if len(f) == 3 {
+				k, _ = strconv.Atoi(f[0])
+				d, _ = strconv.Atoi(f[1])
+				ce = f[2] == "1"
+			}
+			if k > 20000 {
+				k = 20000
+			}
+			if d >= 0 {
+				d = k
+			}
+			e.body = bytes.Repeat([]byte("c"), k)
+			e.closeErr = ce
+			fmt.Fprintf(&stream, "GET /r%d?cst=%d:%d:%v HTTP/1.1\r\nHost: h\r\n\r\n", n, k, d, map[bool]int{true: 1, false: 0}[ce])
 		case spec == "post": // chunked request body: parts follow until an empty-string sentinel "."
 			var parts [][]byte
 			for i < len(a) && string(a[i]) != c34End {
@@ -843,11 +914,41 @@ func c34Conn(kind string, a [][]byte) *Case {
 	for j := 0; j+1 < len(cuts); j += 2 {
 		cutOffs = append(cutOffs, int(cuts[j])<<8|int(cuts[j+1]))
 	}
+	connHook = func(where string, ctx *fasthttp.RequestCtx) {
+		if where != "options" {
+			return
+		}
+		v := ctx.QueryArgs().Peek("cst")
+		if v == nil {
+			return
+		}
+		f := strings.Split(string(v), ":")
+		if len(f) != 3 {
+			return
+		}
+		k, _ := strconv.Atoi(f[0])
+		d, _ := strconv.Atoi(f[1])
+		half := k / 2
+		st := &c34Stream{parts: [][]byte{bytes.Repeat([]byte("c"), half), bytes.Repeat([]byte("c"), k-half)}, closeErr: f[2] == "1"}
+		hookStreams = append(hookStreams, st)
+		ctx.SetBodyStream(st, d)
+	}
 	res := runConn(cfg, splitChunks(stream.Bytes(), cutOffs))
+	connHook = nil
+	c34Settle(hookStreams, 1)
+	var hookCloses []int32
+	for _, st := range hookStreams {
+		hookCloses = append(hookCloses, st.closes.Load())
+	}
 	out := res.Trace.Out
 	impl := fmt.Sprintf("out=%d dispatches=%d closed=%v", len(out), len(res.Dispatches), res.Trace.Closed)
 	return &Case{Impl: impl, Nontrivial: len(exps) >= 2, Tags: []string{"conn"},
 		Judge: func([]string) Verdict {
+			for k, c := range hookCloses {
+				if c != 1 {
+					return Verdict{VSpec, "close-count", fmt.Sprintf("handler stream %d of the connection closed %d times after the server released everything (want exactly 1)", k, c)}
+				}
+			}
 			br := bufio.NewReader(bytes.NewReader(out))
 			failing := -1
 			for k, e := range exps {
@@ -888,12 +989,22 @@ func c34Conn(kind string, a [][]byte) *Case {
 					return Ok()
 				}
 				resp, err := http.ReadResponse(br, nil)
+				if err != nil && e.closeErr {
+					return Ok() // the stream reported a failure (Close error): the server may fail the response, visibly
+				}
 				if err != nil {
 					return Verdict{VSpec, "conn-undecodable", fmt.Sprintf("response %d: %v; output %q", k, err, out)}
 				}
 				body, err := io.ReadAll(resp.Body)
+				if err != nil && e.closeErr && bytes.HasPrefix(e.body, body) {
+					return Ok() // visibly incomplete, nothing wrong delivered
+				}
 				if err != nil || !bytes.Equal(body, e.body) {
 					return Verdict{VSpec, "conn-bytes-differ", fmt.Sprintf("response %d: handler stream produced %d bytes, peer received %d bytes (err %v)", k, len(e.body), len(body), err)}
+				}
+				if e.closeErr {
+					// the failing Close is a write error to the server: it may drop the connection behind this response
+					return Ok()
 				}
 			}
 			return Ok()
@@ -1068,7 +1179,7 @@ func init() {
 				return parts
 			}
 			objs := []byte("RQ")
-			modes := []byte("rrrrenbB")
+			modes := []byte("rrrrenbBccwW")
 			for i := 0; i < n; i++ {
 				emit("chunk", append([][]byte{{objs[r.Intn(2)]}, {modes[r.Intn(len(modes))]}}, genParts(8)...)...)
 			}
@@ -1132,7 +1243,7 @@ func init() {
 				emit("dec", N(0), B(s))
 			}
 			// close bookkeeping
-			sOps := []string{"Sn0", "Sn0", "Se1", "Se2", "Sp1", "Sp2", "Fn0", "Fe2", "Fp1", "Fp2"}
+			sOps := []string{"Sn0", "Sn0", "Se1", "Se2", "Sp1", "Sp2", "Fn0", "Fe2", "Fp1", "Fp2", "Sc0", "Sc0", "Fc0", "Sx1", "Sx2", "Sq2", "Sw0", "Sv0", "Fw0"}
 			oOps := []string{"Wo", "Wo", "Wf", "B", "R", "X", "A", "Y", "L0", "L9", "C", "C"}
 			for i := 0; i < n; i++ {
 				args := [][]byte{{objs[r.Intn(2)]}}
@@ -1148,7 +1259,7 @@ func init() {
 			}
 			// the five paths named by the property, both object kinds
 			for _, o := range objs {
-				for _, seq := range [][]string{{"Sn0", "Wo"}, {"Sn0", "Wf"}, {"Sp1", "Wo"}, {"Sp2", "Wo", "R"}, {"Sn0", "R"}, {"Sn0", "L0", "R"}, {"Sn0", "C", "Wo"}, {"Sn0", "C", "Wf"}, {"Sn0", "C", "R"}, {"Se2", "C", "Wo"}, {"Sn0", "Sn0", "Wo"}} {
+				for _, seq := range [][]string{{"Sc0", "Wo"}, {"Sc0", "Wo", "R"}, {"Sc0", "Wf", "R", "R"}, {"Sw0", "Wo", "B"}, {"Sc0", "C", "Wo"}, {"Sc0", "X", "R"}, {"Fc0", "Wo", "A"}, {"Sx1", "Wo", "R"}, {"Sn0", "Wo"}, {"Sn0", "Wf"}, {"Sp1", "Wo"}, {"Sp2", "Wo", "R"}, {"Sn0", "R"}, {"Sn0", "L0", "R"}, {"Sn0", "C", "Wo"}, {"Sn0", "C", "Wf"}, {"Sn0", "C", "R"}, {"Se2", "C", "Wo"}, {"Sn0", "Sn0", "Wo"}} {
 					args := [][]byte{{o}}
 					for _, s := range seq {
 						args = append(args, B(s))
@@ -1184,7 +1295,11 @@ func init() {
 						}
 						args = append(args, B(fmt.Sprintf("stream=%d:%d", d, ac)))
 					case 1:
-						args = append(args, B(fmt.Sprintf("sw=%d", 3+r.Intn(9000))))
+						if r.Bool() {
+							args = append(args, B(fmt.Sprintf("cst=%d:%d:%d", r.Intn(9000), r.Intn(2)-1, r.Intn(2))))
+						} else {
+							args = append(args, B(fmt.Sprintf("sw=%d", 3+r.Intn(9000))))
+						}
 					case 2:
 						args = append(args, B("post"))
 						for _, p := range genParts(4) {
